@@ -251,6 +251,12 @@ class Ch:
         self.dom = frozenset(dom)
         self._eq = {}
 
+    def __deepcopy__(self, memo):
+        return self
+
+    def __copy__(self):
+        return self
+
     def eq(self, k):
         c = self._eq.get(k)
         if c is None:
@@ -385,6 +391,12 @@ class SymStr:
         self.chars = list(chars)
 
     # -- basics -----------------------------------------------------------
+    def __deepcopy__(self, memo):
+        return self         # immutable
+
+    def __copy__(self):
+        return self
+
     def __len__(self):
         return len(self.chars)
 
